@@ -13,6 +13,16 @@ use std::collections::HashSet;
 use std::sync::atomic::{AtomicBool, Ordering};
 use std::time::Instant;
 
+/// Optional refinement: operations that are *expected* to leave the state untouched (e.g. a resubmission
+/// that the reference model says must be rejected) may be executed directly on the parent state instead of
+/// on a fork. If such an operation reports a violation the parent is no longer trustworthy and the item is
+/// abandoned (the violation is reported; exit status is 1 anyway).
+pub trait InPlace: Machine {
+    fn in_place(&self, _st: &Self::St, _op: &Self::Op) -> bool {
+        false
+    }
+}
+
 pub struct Item<M: Machine> {
     pub tag: String,
     pub prefix: Vec<M::Op>,
@@ -31,7 +41,7 @@ struct Frame<M: Machine> {
 }
 
 /// Explore one item to fixpoint (or until `stop` is raised). `op_code` renders an op for replay files.
-pub fn explore_item<M: Machine>(
+pub fn explore_item<M: InPlace>(
     m: &M,
     item: Item<M>,
     op_code: &(dyn Fn(&M::Op) -> String + Sync),
@@ -45,9 +55,48 @@ pub fn explore_item<M: Machine>(
     stats.states = 1;
     let base_depth = item.prefix.len();
     let mut path: Vec<M::Op> = vec![];
-    let ops0 = if m.terminal(&item.start) { vec![] } else { m.ops(&item.start, base_depth) };
-    stats.alphabet_max = ops0.len();
-    let mut stack: Vec<Frame<M>> = vec![Frame { st: Some(item.start), ops: ops0, next: 0 }];
+    let prefix = item.prefix.clone();
+    let tag = item.tag.clone();
+    // Opens a frame: enumerates the enabled operations, runs the in-place ones on the state itself and keeps
+    // the others for forking. Err(()) = an in-place operation reported a violation (item abandoned).
+    let open = |mut st: M::St, depth: usize, path: &Vec<M::Op>, local: &mut Local, stats: &mut BfsStats| -> Result<Frame<M>, ()> {
+        let all = m.ops(&st, depth);
+        stats.alphabet_max = stats.alphabet_max.max(all.len());
+        let mut rest = vec![];
+        for op in all {
+            if !m.in_place(&st, &op) {
+                rest.push(op);
+                continue;
+            }
+            let r = catch(|| m.step(&mut st, &op));
+            stats.transitions += 1;
+            local.evals += 1;
+            let history = || -> Vec<String> { prefix.iter().chain(path.iter()).chain(std::iter::once(&op)).map(|o| op_code(o)).collect() };
+            match r {
+                Ok(Ok(class)) => local.class(&class),
+                Ok(Err((key, what))) => {
+                    local.violation(key, what, json!({"base": tag, "history": history()}));
+                    return Err(());
+                }
+                Err(p) => {
+                    local.violation(format!("harness-panic@{}", last_panic_location()), format!("harness step panicked: {p}"), json!({"base": tag, "history": history()}));
+                    return Err(());
+                }
+            }
+        }
+        Ok(Frame { st: Some(st), ops: rest, next: 0 })
+    };
+    let mut stack: Vec<Frame<M>> = vec![];
+    if !m.terminal(&item.start) {
+        match open(item.start, base_depth, &path, &mut local, &mut stats) {
+            Ok(f) => stack.push(f),
+            Err(()) => {
+                stats.depth_completed = 0;
+                return ItemResult { local, stats };
+            }
+        }
+    }
+    let mut abandoned = false;
     while let Some(top) = stack.last_mut() {
         if top.next >= top.ops.len() {
             stack.pop();
@@ -76,7 +125,7 @@ pub fn explore_item<M: Machine>(
         local.evals += 1;
         let depth = base_depth + path.len() + 1;
         let history = |path: &Vec<M::Op>, op: &M::Op| -> Vec<String> {
-            item.prefix.iter().chain(path.iter()).chain(std::iter::once(op)).map(|o| op_code(o)).collect()
+            prefix.iter().chain(path.iter()).chain(std::iter::once(op)).map(|o| op_code(o)).collect()
         };
         match r {
             Ok(Ok(class)) => {
@@ -89,39 +138,44 @@ pub fn explore_item<M: Machine>(
                         stats.per_depth_states.push(0);
                     }
                     stats.per_depth_states[depth] += 1;
-                    local.sample(|| json!({"base": item.tag, "history": history(&path, &op), "last_observation": class}));
+                    local.sample(|| json!({"base": tag, "history": history(&path, &op), "last_observation": class}));
                     if m.terminal(&child) {
                         stats.leaves += 1;
                     } else {
-                        let ops = m.ops(&child, depth);
-                        stats.alphabet_max = stats.alphabet_max.max(ops.len());
-                        if ops.is_empty() {
-                            stats.leaves += 1;
-                        } else {
-                            path.push(op);
-                            stack.push(Frame { st: Some(child), ops, next: 0 });
+                        path.push(op);
+                        match open(child, depth, &path, &mut local, &mut stats) {
+                            Ok(f) if f.ops.is_empty() => {
+                                stats.leaves += 1;
+                                path.pop();
+                            }
+                            Ok(f) => stack.push(f),
+                            Err(()) => {
+                                abandoned = true;
+                                break;
+                            }
                         }
                     }
                 }
             }
             Ok(Err((key, what))) => {
-                local.violation(key, what, json!({"base": item.tag, "history": history(&path, &op)}));
+                local.violation(key, what, json!({"base": tag, "history": history(&path, &op)}));
             }
             Err(p) => {
                 local.violation(
                     format!("harness-panic@{}", last_panic_location()),
                     format!("harness step panicked: {p}"),
-                    json!({"base": item.tag, "history": history(&path, &op)}),
+                    json!({"base": tag, "history": history(&path, &op)}),
                 );
             }
         }
     }
+    let _ = abandoned;
     stats.depth_completed = if stats.capped { 0 } else { stats.max_depth };
     ItemResult { local, stats }
 }
 
 /// Explore all items in parallel; merge locals into ctx in item order; return the summed statistics.
-pub fn explore_all<M: Machine>(ctx: &Ctx, m: &M, items: Vec<Item<M>>, op_code: &(dyn Fn(&M::Op) -> String + Sync), wall_cap_s: f64) -> BfsStats
+pub fn explore_all<M: InPlace>(ctx: &Ctx, m: &M, items: Vec<Item<M>>, op_code: &(dyn Fn(&M::Op) -> String + Sync), wall_cap_s: f64) -> BfsStats
 where
     M::St: Send,
 {
